@@ -221,3 +221,9 @@ package field
 //@   ensures result1 == 0 ==> val(fe) == 0
 //@   using euler_sqrt_P(old(val(a)))
 //@   modifies fe.m
+//@
+//@ func NewElement
+//@   ct
+//@   props C01 C18
+//@   ensures val(result) == 0
+//@   fresh result
